@@ -54,6 +54,10 @@ class Axis:
         return isinstance(self.size, int)
 
 
+EXECUTED = {}      # functions of the repository whose bodies were executed symbolically in this process: name -> (module, line, sha)
+CONTRACTED = set()  # callee contracts (sidecar) that replaced a body at a call site in this process
+
+
 class FV:
     """real value with NaN tag.  `nan` is a python bool or z3 Bool; when nan holds `v` is meaningless."""
 
@@ -1431,6 +1435,7 @@ class Exec:
             if tag == "class":
                 key = (f[1], "__new__")
                 if key in self.contracts:
+                    CONTRACTED.add(".".join(map(str, key)))
                     return self.contracts[key](self, path, *args, **kw)
                 obj = Obj(f[1])
                 if self.is_dataclass(f[1]):
@@ -1446,6 +1451,7 @@ class Exec:
                 key = (f[1], f[2])
                 self.calls.append((f"{f[1]}.{f[2]}", getattr(e, "lineno", 0)))
                 if key in self.contracts:
+                    CONTRACTED.add(".".join(map(str, key)))
                     return self.contracts[key](self, path, *args, **kw)
                 return self.call_node(None, self.funcs[key], args, kw, path)
             if tag == "closure":
@@ -1545,6 +1551,7 @@ class Exec:
         key = (owner, name)
         if key in self.contracts:
             a = ([obj] if not self.is_static(fn) else []) + list(args)
+            CONTRACTED.add(".".join(map(str, key)))
             return self.contracts[key](self, path, *a, **kw)
         a = ([obj] if not self.is_static(fn) else []) + list(args)
         return self.call_node(owner, fn, a, kw, path)
@@ -1595,6 +1602,10 @@ class Exec:
 
     def call_node(self, owner, fn, args, kw, path, raw=False):
         env = {"__class__": owner, "__module__": self.cls_mod.get(owner) if owner else self.module_of(fn)}
+        qn = f"{owner + '.' if owner else (str(env['__module__']) + ':')}{fn.name}"
+        if qn not in EXECUTED:
+            import hashlib
+            EXECUTED[qn] = (str(env["__module__"]), fn.lineno, hashlib.sha256(ast.unparse(fn).encode()).hexdigest()[:16])
         # decorators defined in the repository (cm_class_metric) wrap the function: the decorator is *executed* symbolically
         # with the undecorated function as argument and the resulting wrapper closure is applied
         if not raw:
